@@ -297,6 +297,13 @@ func (r *Raft) onInstallSnapRequest(req *installSnapReq, c *conn) (rpcResult, er
 	r.setState(Follower)
 	r.setLeader(req.src)
 
+	// a snapshot that does not go beyond what we have committed adds nothing
+	// (a duplicate, or a late request on an old connection): it must not
+	// replace newer state
+	if req.lastIndex <= r.commitIndex {
+		return drain(success, nil)
+	}
+
 	// store snapshot
 	sink, err := r.snaps.new(req.lastIndex, req.lastTerm, req.lastConfig)
 	if err != nil {
